@@ -185,6 +185,15 @@ func (p *PX) term(v ssa.Value, fr *pxFrame, st *pxState) *Term {
 			((x.Op == token.SUB && a.Op == token.ADD) || (x.Op == token.ADD && a.Op == token.SUB)) && types.Identical(a.T, v.Type()) {
 			return a.A
 		}
+		// an interface made from a concrete value is never the nil interface (Go semantics)
+		if x.Op == token.EQL || x.Op == token.NEQ {
+			for _, pr := range [][2]*Term{{a, b}, {b, a}} {
+				if _, boxed := pr[0].V.(*ssa.MakeInterface); boxed && pr[0].K == TLeaf && strings.HasPrefix(pr[1].key, "nil:") {
+					r := x.Op == token.NEQ
+					return &Term{K: TBoolConst, Bool: r, T: v.Type(), key: fmt.Sprintf("%v", r)}
+				}
+			}
+		}
 		t := &Term{K: TBin, Op: x.Op, A: a, B: b, T: v.Type(), key: "(" + a.key + " " + x.Op.String() + " " + b.key + ")"}
 		if a.K == TConst && b.K == TConst {
 			// fold: both operands are constants on this path
@@ -273,6 +282,25 @@ func (p *PX) term(v ssa.Value, fr *pxFrame, st *pxState) *Term {
 				// element of a package-level lookup table that is constant after initialisation
 				if t := p.tableLoad(ia, v.Type(), fr, st); t != nil {
 					return t
+				}
+				// element of an immutable package-level table of constants at an index decided on this path
+				if g, ok := ia.X.(*ssa.Global); ok {
+					if vals, ok := p.w.globalArrayConsts(g); ok {
+						it := p.term(ia.Index, fr, st)
+						var idx *big.Int
+						if it.K == TConst {
+							idx = it.C
+						} else if s, _ := p.evalTerm(it, st); s != nil && s.Card().Cmp(one) == 0 {
+							idx = s.Min()
+						}
+						if idx != nil && idx.IsInt64() && idx.Int64() >= 0 && idx.Int64() < int64(len(vals)) {
+							c := vals[idx.Int64()]
+							if b, isB := v.Type().Underlying().(*types.Basic); isB && b.Info()&types.IsBoolean != 0 {
+								return &Term{K: TBoolConst, Bool: c.Sign() != 0, T: v.Type(), key: fmt.Sprintf("%v", c.Sign() != 0)}
+							}
+							return &Term{K: TConst, C: c, T: v.Type(), key: c.String()}
+						}
+					}
 				}
 				// element of a symbolic byte sequence
 				if bs := p.byteSeqOf(ia.X, fr, st); bs != nil {
@@ -619,7 +647,8 @@ func (p *PX) instrs(fr *pxFrame, b *ssa.BasicBlock, from int, st *pxState, k pxC
 		case *ssa.Call:
 			p.byteCall(x, fr, st)
 			p.appendCells(x, fr, st)
-			sc := x.Call.StaticCallee()
+			// a method expression `(*T).M(recv, args…)` calls M through a thunk with M's own operands
+			sc := p.w.unthunk(x.Call.StaticCallee())
 			if sc == nil || !stepIn {
 				if sc != nil {
 					p.callEffects(sc, st)
